@@ -30,9 +30,18 @@ STRINGS = ["", "plain", 'quo"te', "two\nlines", "back\\slash", "ünïcødé", "\
 
 class Ctx:
     def __init__(self, rng):
+        # a document type declaration with an internal subset: general entities used in character data (any XML
+        # processor expands them; the text means what it means without them)
+        self.entities = ENTITIES if rng.random() < 0.15 else []
         self.rng = rng
         self.provp = rng.choice(["prov", "prov", "p", None])     # None: prov is the default namespace
         self.nss = rng.sample(NS_POOL, rng.choice([1, 2, 3]))
+
+    def esc(self, text):
+        out = escape(text)
+        for name, val in self.entities:
+            out = out.replace(escape(val), "&%s;" % name)
+        return out
 
     def pn(self, local):
         return local if self.provp is None else "%s:%s" % (self.provp, local)
@@ -40,6 +49,10 @@ class Ctx:
     def pattr(self, local):
         # attributes never take the default namespace: with prov as default, a prefix is still needed
         return "%s:%s" % (self.provp or "pr", local)
+
+
+ENTITIES = [("w1", "plain"), ("w2", "ünïcødé"), ("w3", "true"), ("w4", "5"), ("w5", "http://example.org/thing"), ("w6", "0.5"),
+            ("w7", "spaced"), ("w8", "2012-03-31T09:21:00")]
 
 
 def value_xml(cx, prefixes, tag, rng, allow_lang=True):
@@ -80,7 +93,7 @@ def value_xml(cx, prefixes, tag, rng, allow_lang=True):
     elif r2 < 0.13 and ":" in tag and not tag.startswith(("prov:", "p:", "xsd:", "xsi:")) and cx.pn("x").split(":")[0] != tag.split(":")[0]:
         # a prefix of the document bound to another namespace on this element only
         a = ' xmlns:%s="http://rebound-child.test/"' % tag.split(":")[0] + a
-    return "<%s%s>%s</%s>" % (tag, a, escape(text), tag)
+    return "<%s%s>%s</%s>" % (tag, a, cx.esc(text), tag)
 
 
 def record_xml(cx, prefixes, rng, ind):
@@ -167,5 +180,8 @@ def gen_xml(rng):
             body.append("  <%s %s=%s%s>\n%s\n  </%s>" % (cx.pn("bundleContent"), cx.pattr("id"),
                                                           quoteattr(rng.choice(prefixes) + ":b%d" % j), bdecl,
                                                           "\n".join(recs), cx.pn("bundleContent")))
-    return "<?xml version='1.0' encoding='UTF-8'?>\n<%s %s>\n%s\n</%s>\n" % (cx.pn("document"), " ".join(decl), "\n".join(body),
-                                                                               cx.pn("document"))
+    doctype = ""
+    if cx.entities:
+        doctype = "<!DOCTYPE %s [\n%s\n]>\n" % (cx.pn("document"), "\n".join('  <!ENTITY %s "%s">' % (n, escape(v)) for n, v in cx.entities))
+    return "<?xml version='1.0' encoding='UTF-8'?>\n%s<%s %s>\n%s\n</%s>\n" % (doctype, cx.pn("document"), " ".join(decl), "\n".join(body),
+                                                                                 cx.pn("document"))
